@@ -1,4 +1,75 @@
-(* C02/Properties.v — property C02 (statements only). Under construction. *)
-From Common Require Import Bytes.
+(* C02/Properties.v — property C02: trie storage behaves as an ordered byte-string map.
+   Only statements, each closed by `exact <lemma>`, with Print Assumptions beneath.
+
+   run_trie repaired None ops : the observations (values, keys, key lists in the order returned,
+       (deleted, allDeleted), and Entries() after every mutation) of the operation sequence ops on
+       the model of InMemoryTrie (in_memory.go, iterator.go; fix patches applied), starting empty.
+   run_bmap [] ops : the same sequence on the ordered map over byte-string keys of Trie/Spec.v
+       (get, put, del, next_key = smallest strictly greater key, keys_with_prefix byte-wise and
+       ascending, clear_prefix, clear_prefix_limit = remove the [limit] smallest matching keys and
+       report (removed, none remain)).
+
+   FULL STATEMENT:  forall ops, run_trie repaired None ops = run_bmap [] ops.
+   It is refuted in five input classes, each pinned down by an existing unit test of
+   pkg/trie/inmemory (known findings prefix-trim, get-exhausted-key, delete-exhausted-key,
+   clear-limit-zero, clear-limit-order): C02_*_refuted below.  C02_refines_partial is the full
+   statement for every sequence in which no operation meets one of the five guards
+   (guard_of, evaluated on the state before the operation); every limit, including 0 and
+   limits above the number of matching keys, is covered. *)
+From Common Require Import Bytes Outcome.
 From Trie Require Import Nibbles Node Encode Model Spec.
-From C02 Require Import Model.
+From C02 Require Import Model Guards Proofs.
+
+Theorem C02_refines_partial : forall ops,
+  guards_free [] None ops = true -> run_trie repaired None ops = run_bmap [] ops.
+Proof. exact refines. Qed.
+Print Assumptions C02_refines_partial.
+
+(* one step, from any state in which the trie represents the map *)
+Theorem C02_step : forall t m o, Trie.MapProofs.Rep t m -> guard_of m t o = 0%nat ->
+  snd (trie_step repaired t o) = snd (bm_step m o) /\
+  Trie.MapProofs.Rep (fst (trie_step repaired t o)) (fst (bm_step m o)).
+Proof. exact step_correct. Qed.
+Print Assumptions C02_step.
+
+(* the five known-finding classes: the full statement fails inside each guard *)
+Theorem C02_prefix_refuted :
+  (exists ops, run_trie repaired None ops <> run_bmap [] ops) /\
+  (exists ops, run_trie repaired None ops <> run_bmap [] ops).
+Proof. split; [exists w_trim; exact trim_refuted|exists w_trim_clear; exact trim_clear_refuted]. Qed.
+Print Assumptions C02_prefix_refuted.
+
+Theorem C02_empty_key_refuted :
+  (exists ops, run_trie repaired None ops <> run_bmap [] ops) /\
+  (exists ops, run_trie repaired None ops <> run_bmap [] ops).
+Proof. split; [exists w_get_empty; exact get_empty_refuted|exists w_del_empty; exact del_empty_refuted]. Qed.
+Print Assumptions C02_empty_key_refuted.
+
+Theorem C02_limit_refuted :
+  (exists ops, run_trie repaired None ops <> run_bmap [] ops) /\
+  (exists ops, run_trie repaired None ops <> run_bmap [] ops).
+Proof. split; [exists w_limit_zero; exact limit_zero_refuted|exists w_limit_order; exact limit_order_refuted]. Qed.
+Print Assumptions C02_limit_refuted.
+
+(* the pinned tree violated the statement outside every guard (fixed by fixes/C02-get-diverging-key,
+   C02-delete-diverging-key, C02-keys-prefix-descent, C02-get-exhausted-key-nested,
+   C02-delete-exhausted-key-nested) *)
+Theorem C02_pinned_refuted :
+  Forall (fun w => guards_free [] None w = true /\ run_trie pinned None w <> run_bmap [] w)
+         [w_pinned_get; w_pinned_del; w_pinned_keys; w_pinned_nested_get; w_pinned_nested_del].
+Proof. exact pinned_refuted. Qed.
+Print Assumptions C02_pinned_refuted.
+
+(* non-vacuity: a guard-free sequence that uses every operation, with a prefix whose last byte has a
+   zero low nibble, a key that is a prefix of another, and limits 0, 1 and 5 *)
+Example C02_nonvacuous :
+  let ops := [OpPut (b [16]) (b [1]); OpPut (b [16; 1]) (b [2]); OpPut (b [16; 2]) (b [3]);
+              OpPut (b [32]) (b [4]); OpPut [] (b [5]);
+              OpGet (b [16; 1]); OpGet (b [17]); OpNext (b [16]); OpNext (b [32]);
+              OpKeys (b [16]); OpKeys []; OpEntries;
+              OpClearLimit (b [16; 1]) 0; OpClearLimit (b [16; 1]) 1; OpClearLimit (b [16]) 5;
+              OpDel (b [32]); OpClear (b [48]); OpClear []]%N in
+  guards_free [] None ops = true /\ length (run_bmap [] ops) = 18%nat /\
+  nth 9 (run_bmap [] ops) OutPanic = OutKeys [b [16]; b [16; 1]; b [16; 2]]%N /\
+  nth 14 (run_bmap [] ops) OutPanic = OutLimit 2 true [([], Some (b [5])); (b [32], Some (b [4]))]%N.
+Proof. vm_compute. repeat split; reflexivity. Qed.
